@@ -1,6 +1,13 @@
 """C03 stage "prims": primitive solids with integer data (tilted cylinders / capsules / cones / tori, polytopes,
 metaball solids under Transform / Scale / VecScale, 2D shapes, BitmapToSolid, toolbox3d solids) probed on the quarter
-lattice around their bounds; judged by spec/geom/PrimJudge.tla (exact membership in integer arithmetic)."""
+lattice around their bounds; judged by spec/geom/PrimJudge.tla (exact membership in integer arithmetic).
+
+Derived solids with an exactly known shape (harness c03_derived.go): model3d.ProfileSolid(Rect) = box;
+model3d/model2d.SDFToSolid(Rect, outset) = open / rounded / smaller box; model3d.RevolveSolid(Rect, integer axis) =
+annular cylinder; model3d.CrossSectionSolid(Rect / Sphere) = 2D rect / circle; model3d/model2d.NewColliderSolidInset
+(Rect or its mesh collider, inset > 0 / < 0) = smaller / rounded box; model3d/model2d.NewColliderSolidHollow = shell
+around the box surface; model3d/model2d.CheckedFuncSolid(min, max, f) = box intersected with f.  Probes exactly on the
+boundary of the true shape are not decided."""
 import solids
 
 CLAUSES = {"panic", "bounds", "leak", "cut"}
